@@ -86,7 +86,7 @@ def check(ctx):
                 rc, log, to = ctx.go_run(drv, "TestVerifMirror", timeout=900,
                                          env={"VERIF_CASES": cin, "VERIF_OUT": cout, "VERIF_PROTO": proto, "VERIF_MAXUDP": mx,
                                               "VERIF_PORT": port, "VERIF_PROGRESS": prog, "VERIF_OTHERUDP": other, "VERIF_BURST": burst,
-                                              "VERIF_V6MIX": 1 if mx >= 64 else 0,
+                                              "VERIF_V6MIX": 1 if mx >= 64 else 0, "VERIF_VERBOSE": 1 if mx in (28, 1500) else 0,
                                               "VERIF_V6FLOOD": 2200 if (mx == 64 and burst == runs[0][1]) else 0})
                 if "raw receive socket" in log or "operation not permitted" in log:
                     raise vlib.Infra("raw sockets not available: " + log[-500:])
